@@ -1505,3 +1505,88 @@ func TestVerifC18DetExhaustive(t *testing.T) {
 	h.Close(fmt.Sprintf("EXHAUSTIVE: all 3^%d sequences of {abnormal mark via filterRealAbnormalNodes, normal mark via tryMarkNodesAsNormal, "+
 		"reset via resetNodesAsNormal} x consecutiveAbnormalities 0..3 x consecutiveNormalities 0..2 on one node; non-trivial = the detector is anomalous at some point", length))
 }
+
+// TestVerifC18ClsExhaustive: EXHAUSTIVE small scope for classifyNodes with the four real threshold filters: one resource,
+// every combination of usage / prod usage / low / high / prod low / prod high in 0..K-1 (K = 4 quick, 5 thorough) and
+// schedulable / unschedulable - including windows the random stream never builds (low above high, prod above node).
+func TestVerifC18ClsExhaustive(t *testing.T) {
+	h := vOpen("C18")
+	if h == nil {
+		t.Skip("VERIF_OUT not set")
+	}
+	K := 4
+	if h.Tier == "thorough" {
+		K = 5
+	}
+	n := 2
+	for i := 0; i < 6; i++ {
+		n *= K
+	}
+	qty := func(v int) map[corev1.ResourceName]*resource.Quantity {
+		return map[corev1.ResourceName]*resource.Quantity{corev1.ResourceCPU: resource.NewMilliQuantity(int64(v)*1000, resource.DecimalSI)}
+	}
+	for idx := 0; idx < n; idx++ {
+		r := h.Begin(idx)
+		if r == nil {
+			continue
+		}
+		x := idx
+		var v [6]int
+		for i := 0; i < 6; i++ {
+			v[i] = x % K
+			x /= K
+		}
+		unsched := x == 1
+		u, pu, lo, hi, plo, phi := v[0], v[1], v[2], v[3], v[4], v[5]
+		h.Op("cls1 %d %d %d %d %d %d %d", vB(unsched), u*1000, pu*1000, lo*1000, hi*1000, plo*1000, phi*1000)
+		node := &corev1.Node{ObjectMeta: metav1.ObjectMeta{Name: "n0"}}
+		node.Spec.Unschedulable = unsched
+		nu := &NodeUsage{node: node, usage: qty(u), prodUsage: qty(pu)}
+		th := NodeThresholds{lowResourceThreshold: qty(lo), highResourceThreshold: qty(hi), prodLowResourceThreshold: qty(plo), prodHighResourceThreshold: qty(phi)}
+		lowN, highN, plowN, phighN, bothN := classifyNodes(map[string]*NodeUsage{"n0": nu}, map[string]NodeThresholds{"n0": th},
+			lowThresholdFilter, highThresholdFilter, prodLowThresholdFilter, prodHighThresholdFilter)
+		code, hits := 5, 0
+		for c, lst := range [][]NodeInfo{lowN, highN, plowN, phighN, bothN} {
+			if len(lst) > 0 {
+				code = c
+				hits += len(lst)
+			}
+		}
+		h.Obs("cls %d", code)
+		h.Tag(fmt.Sprintf("class:%d", code))
+		// oracle: what each class claims about the node, from the numbers alone
+		over, prodOver := u > hi, pu > phi
+		under, prodUnder := !unsched && u <= lo, !unsched && pu <= plo
+		if hits > 1 {
+			h.Fail("C18:classified-twice", "node is in %d class lists", hits)
+		}
+		switch code {
+		case 1:
+			if !over {
+				h.Fail("C18:classified-high-not-over", "usage %d is not above high %d", u, hi)
+			}
+		case 3:
+			if !prodOver {
+				h.Fail("C18:classified-prod-high-not-over", "prod usage %d is not above prod high %d", pu, phi)
+			}
+		case 0:
+			if !under {
+				h.Fail("C18:classified-low-not-under", "unschedulable=%v usage %d low %d", unsched, u, lo)
+			}
+		case 2:
+			if !prodUnder {
+				h.Fail("C18:classified-prod-low-not-under", "unschedulable=%v prod usage %d prod low %d", unsched, pu, plo)
+			}
+		case 4:
+			if !under || !prodUnder {
+				h.Fail("C18:classified-both-low-not-under", "unschedulable=%v usage %d low %d prod usage %d prod low %d", unsched, u, lo, pu, plo)
+			}
+		}
+		if code != 5 {
+			h.Nontrivial()
+		}
+		h.End()
+	}
+	h.Close(fmt.Sprintf("EXHAUSTIVE: one resource, usage / prod usage / low / high / prod low / prod high each in 0..%d x schedulable / unschedulable, "+
+		"through classifyNodes with the four real threshold filters; non-trivial = the node lands in one of the five class lists", K-1))
+}
